@@ -542,6 +542,12 @@ func callSSA(i *interpreter, caller *frame, callpos token.Pos, fn *ssa.Function,
 			return r
 		}
 	}
+	if Sched != nil && Sched.pollCost > 0 && fn.Name() == "CheckTimeout" && fn.Signature.Recv() != nil {
+		// virtual time: running code takes no time, so a real match would never time out. With poll_cost_ns
+		// set, every deadline poll of the matcher lets that much virtual time pass first (the clock goroutine
+		// runs meanwhile), which makes a long-running match long-running in virtual time as well.
+		timeSleep(Sched.pollCost)
+	}
 	if wantSummary(fn) {
 		if r, ok := trySummary(i, caller, fn, args); ok {
 			return r
